@@ -51,7 +51,7 @@ import nfc.tag
 import nfc.tag.tt2_nxp
 import nfc.tag.tt3_sony
 from vlib import ref_felica as ref
-from vlib import simfelica, simntag, tagdev, vsched
+from vlib import linesched, simfelica, simntag, tagdev, vsched
 from vlib.engine import HarnessError, Leg, Violation, innermost, unexpected
 
 PROPERTY = "C20"
@@ -1891,6 +1891,144 @@ def run_ntag_protect(case, ctx):
                           expected, p)
 
 
+
+# ------------------------------------------------------------- two_readers
+# Two readers in one process, each with its own tag and its own tag object,
+# authenticate at the same time.  Nothing couples them, so whatever one does
+# must leave the other's results alone.  The harness owns the interleaving at
+# the granularity of source lines (vlib.linesched): the two bodies run under
+# a counter of source lines in nfc/ and function calls in pyDes.py, the baton
+# changes hands at generated counts, the simulators are atomic.
+import os as _os                                            # noqa: E402
+import pyDes as _pyDes                                      # noqa: E402
+
+LINE_SCOPE = [_os.path.join(_os.path.dirname(nfc.__file__), "")]
+CALL_SCOPE = [_pyDes.__file__.replace(".pyc", ".py")]
+
+
+def _reader_body(sub, ctx):
+    """-> (body, sim).  body() performs the authentications of `sub` on a
+    fresh tag + tag object and returns the list of outcomes"""
+    if sub["tech"] == "felica":
+        sim = felica_sim(sub)
+        clf, tag = activate(sim, FELICA_CLS[sub["prod"]], sub["prod"])
+    else:
+        sim = ntag_sim(sub)
+        clf, tag = activate(sim, NTAG_CLS[sub["prod"]], sub["prod"])
+    inner = clf.device.send_cmd_recv_rsp
+
+    def atomic_exchange(target, data, timeout):
+        with linesched.atomic():
+            return inner(target, data, timeout)
+    clf.device.send_cmd_recv_rsp = atomic_exchange
+
+    def body():
+        outs = []
+        for step in sub["seq"]:
+            out = call(ctx, tag.authenticate, typed(step["pw"], step["type"]))
+            outs.append([out[0], out[1] if out[0] == "ok"
+                         else type(out[1]).__name__])
+            if sub["tech"] == "felica" and out[0] == "ok" and out[1] is True:
+                r = call(ctx, tag.read_with_mac, 1, 2)
+                good = r[0] == "ok" and r[1] is not None and \
+                    bytes(r[1]) == sim.genuine(1, 2)
+                outs.append(["read", r[0], good])
+        return outs
+    return body, sim
+
+
+def _expected_auth(sub, sim, step):
+    if sub["tech"] == "felica":
+        k = felica_key_of(step["pw"])
+        return None if k is None else ref.same_des_key(k, sim.key)
+    k = ntag_key_of(step["pw"])
+    return None if k is None else (k == sub["secret"])
+
+
+def run_two_readers(case, ctx):
+    subs = [case["a"], case["b"]]
+    vsched.seed_urandom(case["useed"])
+    ctx.set_class("+".join(s["tech"] for s in subs))
+    # 1. each reader alone (also measures how many lines its work takes)
+    solo, lines = [], []
+    for sub in subs:
+        body, sim = _reader_body(sub, ctx)
+        n, res, _ = linesched.run([body], [[]], LINE_SCOPE, CALL_SCOPE)
+        kind, val = res[0]
+        if kind == "exc":
+            raise val
+        solo.append(val)
+        lines.append(n[0])
+        # the solo outcome is the oracle's (first authentication only, later
+        # ones depend on the tag state the way the sequential legs model it)
+        step = sub["seq"][0]
+        exp = _expected_auth(sub, sim, step)
+        first = val[0]
+        if exp is not None and first[0] == "ok" and first[1] is not exp:
+            raise Violation("true-for-wrong-key" if first[1] is True else
+                            "false-for-right-key", "solo %r -> %r, expected "
+                            "%r" % (bytes(step["pw"]).hex(), first[1], exp))
+    # 2. both at once under the generated line schedule
+    bodies = [_reader_body(sub, ctx)[0] for sub in subs]
+    points = [sorted(set(1 + f * max(lines[i] - 1, 1) // 10000
+                         for f in case["switch"][i])) for i in (0, 1)]
+    n, res, switches = linesched.run(bodies, points, LINE_SCOPE, CALL_SCOPE)
+    ctx.label("switches:%d" % min(switches, 6))
+    if switches >= 1:
+        ctx.nontrivial()
+    if case["a"]["tech"] == "felica" and case["b"]["tech"] == "felica" and \
+            ref.same_des_key(case["a"]["key"], case["b"]["key"]):
+        ctx.label("same-card-key")
+    for i in (0, 1):
+        kind, val = res[i]
+        if kind == "exc":
+            if isinstance(val, (Violation, HarnessError,
+                                tagdev.BudgetExceeded)):
+                raise val
+            raise unexpected(val, oracle="reader-raised")
+        if val != solo[i]:
+            raise Violation("concurrent-reader-changes-result",
+                            "reader %d alone: %r; while the other reader "
+                            "works (switch points %r of %r lines): %r"
+                            % (i, solo[i], points, lines, val))
+
+
+@st.composite
+def gen_two_readers(draw):
+    def felica(key):
+        seq = []
+        for _ in range(draw(st.sampled_from([1, 1, 2]))):
+            kind, pw = draw(felica_password(key))
+            seq.append({"kind": kind, "pw": pw, "type": "bytes"})
+        return {"tech": "felica", "prod": draw(prod_), "key": key,
+                "seq": seq, "fill": draw(st.integers(0, 999)), "id": None}
+
+    def ntag():
+        secret = draw(secret6)
+        kind, pw = draw(ntag_password(secret))
+        return {"tech": "ntag", "prod": draw(ntag_prod_), "secret": secret,
+                "seq": [{"kind": kind, "pw": pw, "type": "bytes"}],
+                "nak": "byte", "auth0": 0xFF, "prot": False}
+    key = draw(key16)
+    a = felica(key)
+    b = draw(st.sampled_from(["same", "same", "same", "other", "ntag"]))
+    b = felica(key) if b == "same" else felica(draw(key16)) \
+        if b == "other" else ntag()
+    if draw(st.booleans()):
+        a, b = b, a
+    # right passwords are the interesting ones: a disturbed computation
+    # makes a right password fail, hardly ever a wrong one pass
+    for sub in (a, b):
+        if sub["tech"] == "felica" and draw(st.booleans()):
+            sub["seq"][0] = {"kind": "same", "pw": sub["key"],
+                             "type": "bytes"}
+    return {"a": a, "b": b, "useed": draw(useed_),
+            "switch": [draw(st.lists(st.integers(0, 9999), min_size=0,
+                                     max_size=5)),
+                       draw(st.lists(st.integers(0, 9999), min_size=1,
+                                     max_size=5))]}
+
+
 # ------------------------------------------------------------------- legs
 LEGS = [
     Leg("anchors", run=run_anchor, enum=enum_anchors, exhaustive=True,
@@ -2063,4 +2201,18 @@ LEGS = [
              "or blank, then fresh activations with authenticate(same) / "
              "authenticate(other); non-trivial = protect succeeded and the "
              "other password mismatches."),
+    Leg("two_readers", run=run_two_readers,
+        gen=lambda tier: gen_two_readers(), quick=120, thorough=3000,
+        shards_quick=8, shards_thorough=16, nt_floor=0.5,
+        rule="two readers in one process, each with its own simulated tag "
+             "(FeliCa Lite / Lite-S, same or different card key, or NTAG21x) "
+             "and its own tag object, run 1-2 authenticate() calls (+ a MAC'd "
+             "read after a success) at the same time; the harness switches "
+             "between the two threads at 1-10 generated points counted in "
+             "source lines of nfc/ and function calls of pyDes.py "
+             "(vlib.linesched, simulators atomic). "
+             "Oracle: every reader gets exactly the outcomes it gets alone, "
+             "and alone the first outcome is the key-holding oracle's. "
+             "Non-trivial = at least one switch happened while both readers "
+             "were at work."),
 ]
